@@ -48,6 +48,9 @@ type Spec struct {
 	// static file server and http.ServeContent do), so that a response
 	// writer's ReadFrom, if it has one, is what receives the bytes.
 	Copy bool `json:"copy,omitempty"`
+	// Info > 0: an interim response with that 1xx status (and a Link header)
+	// is sent first, the way 103 Early Hints are.
+	Info int `json:"info,omitempty"`
 }
 
 // plainReader hides every method of the wrapped reader but Read.
@@ -178,6 +181,11 @@ func (h handler) ServeHTTP(w http.ResponseWriter, r *http.Request) (int, error) 
 	if s.Panic == "abort-before" {
 		// the value net/http and httputil.ReverseProxy use to abort a handler
 		panic(http.ErrAbortHandler)
+	}
+	if s.Info >= 100 && s.Info < 200 {
+		w.Header().Set("Link", "</style.css>; rel=preload; as=style")
+		w.WriteHeader(s.Info)
+		w.Header().Del("Link")
 	}
 	for _, kv := range s.Hdr {
 		w.Header().Add(kv[0], kv[1])
